@@ -83,6 +83,7 @@ def _obis(p):
     if not isinstance(O._obis_pattern, regex.SymPattern):
         p.setg(O, "_obis_pattern", regex.SymPattern(O._obis_pattern))
     p.setg(O, "int", sym_int)
+    p.setg(O, "hash", models.sym_hash)
     n = 0
     for name in ("to_reduced_str", "__str__", "to_group_cdr_str"):
         try:
